@@ -243,6 +243,33 @@ inline void ibuild(iprogram &P, const std::string &name) {
     me.assume(le(E(x), E(MAX)));
     me.callsite("f1", {y}, {x});
     P.asrt(mx, le(E(y), E(P.K(9))));
+  } else if (name == "refparam") { // reference / region parameters; the callee's formals p, R share their names with other caller variables
+    // foo(p:ref, Rf:region, n) -> res { res := n + K1 }    main: p := make_ref(R); q := make_ref(R); q2 := gep(q, 4); x := K0; y := foo(q2, R, x)
+    var_t p(P.vf["p"], crab::REF_TYPE, 32), q(P.vf["q"], crab::REF_TYPE, 32), q2(P.vf["q2"], crab::REF_TYPE, 32);
+    var_t R(P.vf["R"], crab::REG_INT_TYPE, 32), Rf(P.vf["Rf"], crab::REG_INT_TYPE, 32);
+    var_t n = P.iv("n"), res = P.iv("res"), x = P.iv("x"), y = P.iv("y");
+    typedef crab::variable_or_constant<znum, varname_t> voc_t;
+    voc_t sz(znum(8), crab::variable_type(crab::INT_TYPE, 32));
+    static crab::tag_manager tm;
+    func &f = P.mkf("foo", {p, Rf, n}, {res}, {}, "fe", "fx");
+    f.vars = {n, res}; // only the integer variables are compared with the concrete state
+    auto &fe = f.cfg->insert("fe");
+    auto &fx = f.cfg->insert("fx");
+    fe >> fx;
+    fe.add(res, n, P.K(1));
+    func &m = P.mkf("main", {}, {}, {}, "me", "mx");
+    m.vars = {x, y};
+    auto &me = m.cfg->insert("me");
+    auto &m2 = m.cfg->insert("m2");
+    auto &mx = m.cfg->insert("mx");
+    me >> m2; m2 >> mx;
+    me.region_init(R);
+    me.make_ref(p, R, sz, tm.mk_tag());
+    me.make_ref(q, R, sz, tm.mk_tag());
+    me.gep_ref(q2, R, q, R, lexp_t(znum(4)));
+    me.assign(x, E(P.K(5)));
+    m2.callsite("foo", {y}, {q2, R, x});
+    P.asrt(mx, le(E(y), E(P.K(7))));
   } else
     throw sxe::no_verdict{"unknown-inter-program"};
 }
